@@ -45,6 +45,17 @@ theorem axis0_per_column (f : VecFn α) (d : Desc) (skipna : Bool) (tb : RTB α)
     intro b hmem
     exact axis0Block_eq hwf f d skipna hunity (by rw [hb]; exact hmem)
 
+/-- The case the repaired shortcut (`out[pos] = b.reshape(-1)[0]`, fix 790a40a) is about: a one-row
+    frame with any number of blocks, `skipna = False`, a function flagged `size_one_unity` — every block
+    of one column takes the shortcut, and the result is still the per-column reduction. -/
+theorem axis0_one_row_unity (r : Red α) (hrej : r.reject = false) (d : Desc) (tb : RTB α) (hwf : tb.WF)
+    (hne : tb.blocks ≠ []) (_hrows : tb.rows = 1) :
+    ufuncAxisSkipna r.apply d false 0 tb = perColumn r.apply false tb :=
+  axis0_per_column r.apply d false tb hwf hne (fun _ c => by
+    cases c with
+    | none => simp [Red.apply, hrej]
+    | some v => simp [Red.apply, osum, olift, Red.fin])
+
 /-- the shortcut's claim holds for every lawful propagating reduction (sum, prod, min, max …) -/
 theorem unity_claim (r : Red α) (hrej : r.reject = false) (c : Option α) : r.apply false [c] = .ok c := by
   cases c with
@@ -382,9 +393,13 @@ example : ufuncAxisSkipna minInt.apply (desc .min) true 1
     ⟨2, [.d1 false [some 5, none], .d2 false [[some 6, none], [some 2, some 9]]]⟩ = .ok [some 2, some 9] := by decide
 example : ufuncAxisSkipna minInt.apply (desc .min) false 1
     ⟨2, [.d1 false [some 5, none], .d2 false [[some 6, none], [some 2, some 9]]]⟩ = .ok [some 2, none] := by decide
-/-- the `size_one_unity` shortcut on a one-row frame with two blocks -/
+/-- the `size_one_unity` shortcut on a one-row frame with several blocks (1-D and 2-D, one of them
+    wider than one column): the elements, and the propagated missing cell -/
 example : ufuncAxisSkipna sumInt.apply (desc .sum) false 0
     ⟨1, [.d1 false [some 5], .d2 false [[none]]]⟩ = .ok [some 5, none] := by decide
+example : ufuncAxisSkipna minInt.apply (desc .min) false 0
+    ⟨1, [.d1 false [some 5], .d2 false [[some 2], [some 7]], .d2 false [[some 1]]]⟩
+      = .ok [some 5, some 2, some 7, some 1] := by decide
 example : cumFrame (· + ·) (0 : Int) true 1 ⟨2, [.d1 false [some 1, some 2], .d1 false [none, some 5]]⟩
     = [[some 1, some 2], [some 1, some 7]] := by decide
 example : argBest2d (fun (a b : Int) => a < b) true [[some 3, none, some 1], [some 2, some 2, some 4]]
